@@ -34,7 +34,7 @@ Quantified over: {quant}
 {len(prev)} earlier contributors already produced these changes for this property — do NOT repeat any of them or a close variant, and do not reuse their code sites or trigger conditions:
 {prevtxt}
 
-YOUR TASK: produce ONE realistic change to the library source (files under src/) that BREAKS this property in a way that is NEW in both code site and trigger, while the crate still compiles and its whole existing test-suite still passes (`cargo test --offline` must be green: unit tests, integration tests under tests/, and doc tests). It should look like something a real contributor could plausibly introduce (a refactoring, optimisation, "robustness" tweak, feature addition, dependency-style cleanup...). It must be a genuine violation of the property AS STATED and stay strictly inside what the property quantifies over (re-read the "Quantified over" text: if your trigger needs something outside it, pick another idea). Prefer a change whose effect is visible through ORDINARY use of the public API (typical shapes, typical call sequences a user of the crate writes) over one that needs an exotic trigger: the most valuable change is one that a maintainer could merge by accident and that ordinary users would then hit, yet that the existing tests do not see. The property will be checked by a randomised / enumerative test generator that already knows the ideas above. Do not edit or delete existing tests.
+YOUR TASK: produce ONE realistic change to the library source (files under src/) that BREAKS this property in a way that is NEW in both code site and trigger, while the crate still compiles and its whole existing test-suite still passes (`cargo test --offline` must be green: unit tests, integration tests under tests/, and doc tests). It should look like something a real contributor could plausibly introduce (a refactoring, optimisation, "robustness" tweak, feature addition, dependency-style cleanup...). It must be a genuine violation of the property AS STATED and stay strictly inside what the property quantifies over (re-read the "Quantified over" text: if your trigger needs something outside it, pick another idea). The change should be one a maintainer could merge by accident: plausible motivation, small diff, effect reachable through the public API by a user who does nothing unusual — but look for the part of the public API, the combination of two features, the shape type or the value range that the earlier ideas did NOT touch (for example: a different one of the 13 shape types, the complete Writer/Reader instead of ShapeWriter/ShapeReader or the reverse, path-based instead of in-memory routes, typed instead of generic routes, a conversion or trait impl, an accessor, an error path, a different header field, a boundary such as 0 / 1 / 2 elements). The property will be checked by a randomised / enumerative test generator that already knows the ideas above. Do not edit or delete existing tests.
 
 DELIVERABLES, all under {wt}/_out/ (create the directory):
 1. patch.diff — the output of `git diff -- src/` (library source only).
